@@ -65,6 +65,7 @@ func (w *ExprWorld) inject() map[string]interface{} {
 	v := p
 	m["P"] = &p
 	m["V"] = v
+	m["Z"] = &Scalars{} // every cell zero: zero divisors of every Go numeric kind
 	return m
 }
 
@@ -447,6 +448,7 @@ func (g *exprGen) expr(class byte, depth int) *dsl.Expr {
 // plant returns a faulty construct standing in for an expression of the wanted class.
 func (g *exprGen) plant(class byte, depth int) *dsl.Expr {
 	t := g.t
+	g.fault = "(planting)" // exactly one fault: sub-expressions of the faulty construct are well typed
 	d := depth - 1
 	if d < 0 {
 		d = 0
@@ -455,7 +457,12 @@ func (g *exprGen) plant(class byte, depth int) *dsl.Expr {
 	var kind string
 	switch class {
 	case 'i', 'u', 'f':
-		switch uni(t, g.lbl("fault"), 0, 6) {
+		switch uni(t, g.lbl("fault"), 0, 8) {
+		case 7, 8:
+			// zero divisor of a specific Go kind (injected zero cell), dividend of any numeric class
+			f := []string{"I", "I8", "I16", "I32", "I64", "U", "U8", "U16", "U32", "U64", "F32", "F64"}[uni(t, g.lbl("zkind"), 0, 11)]
+			kind = "divzero-injected-" + f
+			e = dsl.Bin("/", g.expr(g.numClass("dc"), d), dsl.Var("Z."+f))
 		case 0:
 			kind = "arith-string"
 			op := arithOps[uni(t, g.lbl("fop"), 0, 3)]
